@@ -18,7 +18,8 @@ def run(ctx):
         "(one sentinel connection per target, accept queue drained up to it), plus app->target bytes on the accepted socket. "
         "Workload: channel tables = ordered sequences over {a,ab,abc,A,a_b,a/b,echo,echo2}; allow-lists = every subset (empty = all) and the reversed "
         "order of each; requested names = configured + unlisted + unknown + prefix/extension/case variants + '/'-prefixed/suffixed + empty + newline/space/'ls'. "
-        "Server kinds: tcp and websocket (two paths, every ordered pair of lists) exhaustively for tables of 1-2 channels (thorough: tcp 1-3); "
+        "Server kinds: tcp (one server per list, all in one server command) and websocket (two paths, every ordered pair of subsets) exhaustively for "
+        "tables of 1-2 channels (thorough: tcp 1-3, websocket 3 channels with seeded pairs); websocket also one client per configuration on a variant of a path (case, prefix, extension, unknown); "
         "unix, udp(KCP), stdio, dns sampled with tables of 1-4 channels; allow-lists naming unknown channels must fail start-up (else judged by the model). "
         "Distinct = (kind, table, allow-lists, endpoint, via, name/script position); non-trivial = an outcome was observed and the barrier completed.",
         ["all targets are the harness's own listeners, so 'no outbound connection to any target' is observable",
@@ -26,5 +27,6 @@ def run(ctx):
          "loopback sockets / in-process pipes stand for the network"],
         extra_cov={"exhaustive": False,
                    "exhaustive_subspace": "tcp socket servers and two-path websocket servers: all ordered channel tables of length 1-2 over the 8-name pool x "
-                                          "every allow-list (all subsets, both orders; websocket: every ordered pair of lists on the two paths) x the full requested-name set"
+                                          "every allow-list (tcp: all subsets in both orders; websocket: every ordered pair of subsets on the two paths) x the full requested-name set "
+                                          "(about 25-30 names per table) through the real client, plus the raw multistream scripts"
                                           + ("; tcp also all tables of length 3" if ctx.tier == "thorough" else "")})
